@@ -96,6 +96,12 @@ def shiftVec2 (mode : Mode) (cs : CS2) (k0 k1 : Int) : V2 Rat :=
   | .coord => ⟨(k1 : Rat) * cs.h1, -((k0 : Rat) * cs.h0)⟩
   | _ => ⟨(k0 : Rat), (k1 : Rat)⟩
 
+/-- `AffineCorrection(..., fit_options = {"isometry": True})` converts its reference points to physical coordinates of
+voxel centres: source points with the SOURCE system, destination points with the DESTINATION system. For reference
+pairs p ↦ p + (k0, k1) (a whole-voxel shift onto another canvas) the pairs differ by this vector: -/
+def isoShiftVec (csS csD : CS2) (k0 k1 : Int) : V2 Rat :=
+  V2.sub (csD.coordinate ⟨(k0 : Rat) + half, (k1 : Rat) + half⟩) (csS.coordinate ⟨half, half⟩)
+
 /-- specification: the array shifted by whole voxels (k0, k1) with zero fill -/
 def shift2 {β : Type} (zero : β) (n0 n1 : Nat) (k0 k1 : Int) (arr : Int → Int → β) (v0 v1 : Int) : β :=
   if 0 ≤ v0 - k0 ∧ v0 - k0 < n0 ∧ 0 ≤ v1 - k1 ∧ v1 - k1 < n1 then arr (v0 - k0) (v1 - k1) else zero
